@@ -147,6 +147,19 @@ static void to24(const float *f, opus_int32 *s, int n)
    int i; for (i = 0; i < n; i++) { double v = floor(.5 + 8388608.0 * f[i]); s[i] = (opus_int32)(v > 8388607 ? 8388607 : v < -8388608 ? -8388608 : v); }
 }
 
+/* loud (> 0 dBFS) low-frequency tone with continuous phase over the whole stream: the decoder's 16-bit entry
+   points soft-clip it, and frames end inside clipped half-cycles (soft-clip memory carried to the next call) */
+static double g_loud_f, g_loud_amp, g_loud_ph; static long g_loud_n;
+static void gen_loud(float *pcm, int n, int ch, int Fs)
+{
+   int i, c;
+   for (i = 0; i < n; i++) {
+      double v = g_loud_amp * sin(6.283185307179586 * g_loud_f * (double)(g_loud_n + i) / Fs + g_loud_ph);
+      for (c = 0; c < ch; c++) pcm[i * ch + c] = (float)((c % 3 == 1) ? -v : (c % 3 == 2) ? 0.8 * v : v);
+   }
+   g_loud_n += n;
+}
+
 /* ------------------------------------------------------------------ object construction */
 static int obj_size(const Case *c)
 {
@@ -461,18 +474,32 @@ static void gen_packets(Case *c, vrng *r)
       c->demix = (unsigned char *)malloc(c->demix_size > 0 ? c->demix_size : 1);
       opus_projection_encoder_ctl((OpusProjectionEncoder *)eo.p, OPUS_PROJECTION_GET_DEMIXING_MATRIX(c->demix, c->demix_size));
    }
+   if (c->scen == 4) {                     /* loud scenario: enough rate to keep the overshoot, one frame size per stream */
+      static const int q[6] = {50, 50, 100, 25, 200, 400};
+      ECTL(&eo, OPUS_SET_BITRATE(e.ch * (48000 + (int)vbelow(r, 100000))));
+      if (vchance(r, 40)) ECTL(&eo, OPUS_SET_VBR(0));
+      if (vchance(r, 40)) ECTL(&eo, OPUS_SET_PREDICTION_DISABLED(1));
+      ECTL(&eo, OPUS_SET_COMPLEXITY((int)vbelow(r, 11)));
+      fixed_frame = e.Fs / q[vbelow(r, 6)];
+      g_loud_f = 25.0 + vbelow(r, 90); g_loud_amp = (vchance(r, 50) ? -1.0 : 1.0) * (1.15 + vbelow(r, 130) / 100.0);
+      g_loud_ph = vbelow(r, 6283) / 1000.0; g_loud_n = 0;
+   } else {
    ECTL(&eo, OPUS_SET_BITRATE(e.ch * (vchance(r, 50) ? 8000 + (int)vbelow(r, 24000) : 24000 + (int)vbelow(r, 70000))));
    if (vchance(r, 50)) { ECTL(&eo, OPUS_SET_INBAND_FEC(1)); ECTL(&eo, OPUS_SET_PACKET_LOSS_PERC(10 + (int)vbelow(r, 20))); }
    if (vchance(r, 30)) ECTL(&eo, OPUS_SET_VBR(0));
    if (vchance(r, 25)) ECTL(&eo, OPUS_SET_DTX(1));
    ECTL(&eo, OPUS_SET_COMPLEXITY((int)vbelow(r, 11)));
+   }
    if (c->kind == K_RP) { fixed_frame = pick_frame(r, e.Fs, 0); if (vchance(r, 60)) ECTL(&eo, OPUS_SET_BANDWIDTH(OPUS_BANDWIDTH_NARROWBAND + (int)vbelow(r, 5))); }
-   c->npk = 14 + vbelow(r, MAXPK - 14 - 6);
+   c->npk = c->scen == 4 ? MAXPK - 6 : 14 + (int)vbelow(r, MAXPK - 14 - 6);
    for (i = 0; i < c->npk; i++) {
       int fs = fixed_frame ? fixed_frame : pick_frame(r, e.Fs, 1), len;
       Case tmp = e;
+      if (c->scen == 4) gen_loud(g_pcm, fs, e.ch, e.Fs);
+      else {
       if (c->kind != K_RP && vchance(r, 12)) ECTL(&eo, OPUS_SET_BITRATE(e.ch * (6000 + (int)vbelow(r, 90000))));
       gen_signal(vnext(r), pick_sig(r, 0), g_pcm, fs, e.ch, e.Fs);
+      }
       (void)tmp;
       if (e.kind == K_ENC) len = opus_encode_float((OpusEncoder *)eo.p, g_pcm, fs, g_pkt, 1500);
       else if (e.kind == K_MSENC) len = opus_multistream_encode_float((OpusMSEncoder *)eo.p, g_pcm, fs, g_pkt, 4000);
@@ -481,7 +508,7 @@ static void gen_packets(Case *c, vrng *r)
       c->pk[i] = vexact(g_pkt, len); c->pklen[i] = len;
    }
    /* damaged and junk packets */
-   for (i = 0; i < 6 && c->npk < MAXPK; i++) {
+   for (i = 0; i < 6 && c->npk < MAXPK && c->scen != 4; i++) {
       int src = vbelow(r, c->npk), len = c->pklen[src], j;
       memcpy(g_pkt, c->pk[src], len);
       switch (vbelow(r, 4)) {
@@ -495,9 +522,36 @@ static void gen_packets(Case *c, vrng *r)
    free(eo.p);
 }
 
+/* loud scenario (scen 4, ~35 % of the decoder cases): a > 0 dBFS low-frequency stream decoded mostly through the
+   16-bit entry points (the only ones that soft-clip), packets in order, resets at random frame boundaries */
+static void gen_loud_dec_script(Case *c, vrng *r)
+{
+   int n, next = 0;
+   if (c->kind == K_DEC) { c->Fs = vchance(r, 60) ? 48000 : RATES[vbelow(r, 5)]; c->ch = 1 + vbelow(r, 2); c->encFs = c->Fs; c->encCh = c->ch; }
+   else if (c->kind == K_MSDEC) { c->Fs = vchance(r, 60) ? 48000 : RATES[vbelow(r, 5)]; c->ch = 1 + vbelow(r, 6); c->encFs = c->Fs; c->encCh = c->ch;
+      c->family = c->ch <= 2 ? (int)vbelow(r, 2) : vchance(r, 75) ? 1 : 255; }
+   else { static const int amb[] = {4, 6, 9}; c->Fs = 48000; c->ch = amb[vbelow(r, 3)]; c->encFs = c->Fs; c->encCh = c->ch; c->family = 3; }
+   gen_packets(c, r);
+   n = 14 + vbelow(r, 34);
+   if (vchance(r, 30)) add(c, OP_SET, D_GAIN, (int)vbelow(r, 1200) - 300, 0, 0, 0);
+   while (c->nops < n) {
+      int k = vbelow(r, 100);
+      if (k < 76) {
+         int api = vchance(r, 82) ? 1 : (int)vbelow(r, 3);
+         if (next >= c->npk) next = 0;
+         add(c, OP_DEC, next++, api, 0, MAXFRAME * c->Fs / 48000, 0);
+      } else if (k < 88) add(c, OP_RESET, 0, 0, 0, 0, 0);
+      else if (k < 95) add(c, OP_GET, 0, 0, 0, 0, 0);
+      else add(c, OP_SET, D_GAIN, (int)vbelow(r, 600) - 100, 0, 0, 0);
+   }
+   sprintf(c->cls, "%s/Fs%d/ch%d/encFs%d/encCh%d/fam%d/loud", KNAME[c->kind], c->Fs, c->ch, c->encFs, c->encCh, c->family);
+}
+
 static void gen_dec_script(Case *c, vrng *r)
 {
    int n, i;
+   { vrng q; q.s = r->s ^ 0xC12C12C12C12ULL; c->scen = vbelow(&q, 100) < 35 ? 4 : 0; }   /* does not advance r */
+   if (c->scen == 4) { gen_loud_dec_script(c, r); return; }
    if (c->kind == K_DEC) {
       c->Fs = RATES[vbelow(r, 5)]; c->ch = 1 + vbelow(r, 2);
       c->encFs = vchance(r, 60) ? c->Fs : RATES[vbelow(r, 5)]; c->encCh = vchance(r, 70) ? c->ch : 1 + (int)vbelow(r, 2);
